@@ -15,11 +15,24 @@ import MxModel.Gen.KWeekly
 import MxModel.Props.KEnergy
 import MxModel.Props.KMath
 import MxModel.Core.Weekly
+import MxModel.Lemmas.KTactic
+import Mathlib.Tactic.SplitIfs
 
 namespace Mx.KWeekly
 open Mx Mx.Gen Mx.Weekly
 
 /-! ### buckets -/
+
+/-- the (tag, payload) reading of the model's `bucketIdFor` -/
+theorem bucketIdFor_tag (first : Nat) (e : Energy) :
+    (match bucketIdFor first e with
+      | none => (0, 0)
+      | some id => (1, id)) =
+      if e.totalLocked = 0 then (0, 0) else if e.getEnergyAmount = 0 then (0, 0)
+      else (1, e.getEnergyAmount / e.totalLocked / 7 + first) := by
+  have hE : EPOCHS_IN_WEEK = 7 := rfl
+  simp only [bucketIdFor, hE]
+  split_ifs <;> rfl
 
 /-- source `get_bucket_id_for_energy` = model `bucketIdFor`: `None` without tokens or without
     positive energy, else `Some(⌊⌊energy / tokens⌋ / 7⌋ + first_bucket_id)`; never aborts -/
@@ -28,29 +41,17 @@ theorem get_bucket_id_for_energy_eq (first : Nat) (e : Energy) :
       some (match bucketIdFor first e with
             | none => (0, 0)
             | some id => (1, id)) := by
-  have hE : EPOCHS_IN_WEEK = 7 := rfl
-  have h7 : ¬ (7 = 0) := by omega
-  by_cases ht : e.totalLocked = 0
-  · simp only [KWeekly.get_bucket_id_for_energy, bucketIdFor, if_pos ht, Option.pure_def]
-  · by_cases he : e.getEnergyAmount = 0
-    · simp only [KWeekly.get_bucket_id_for_energy, bucketIdFor, if_neg ht,
-        Mx.KEnergy.weekly_get_energy_amount_eq, if_pos he, Option.bind_eq_bind, Option.bind_some,
-        Option.pure_def]
-    · simp only [KWeekly.get_bucket_id_for_energy, bucketIdFor, hE, if_neg ht,
-        Mx.KEnergy.weekly_get_energy_amount_eq, if_neg he, div?, if_neg h7, Option.bind_eq_bind,
-        Option.bind_some, Option.pure_def]
+  rw [bucketIdFor_tag]
+  k_defs [KWeekly.get_bucket_id_for_energy, Mx.KEnergy.weekly_get_energy_amount_eq]
+  k_solve
 
 /-- source `get_surplus_for_energy` = model `surplusFor`: `energy mod (tokens · 7)`, 0 without
     tokens; never aborts -/
 theorem get_surplus_for_energy_eq (e : Energy) :
     KWeekly.get_surplus_for_energy e.amount e.totalLocked = some (surplusFor e) := by
   have hE : EPOCHS_IN_WEEK = 7 := rfl
-  by_cases ht : e.totalLocked = 0
-  · simp only [KWeekly.get_surplus_for_energy, surplusFor, if_pos ht, Option.pure_def]
-  · have hm : ¬ (e.totalLocked * 7 = 0) := by omega
-    simp only [KWeekly.get_surplus_for_energy, surplusFor, hE, if_neg ht,
-      Mx.KEnergy.weekly_get_energy_amount_eq, mod?, if_neg hm, Option.bind_eq_bind,
-      Option.bind_some]
+  k_defs [KWeekly.get_surplus_for_energy, surplusFor, hE, Mx.KEnergy.weekly_get_energy_amount_eq]
+  k_solve
 
 /-- one iteration of the loop of `shift_buckets_and_update_tokens_energy` IS the model's
     `shiftOnce` on the running totals: `tokens −= bucket.tokens` (checked), then
@@ -61,11 +62,8 @@ theorem shift_one_bucket_eq (g : St) (t : Totals) :
         t.energy t.tokens =
       (shiftOnce g t).map fun r => (r.2.energy, r.2.tokens) := by
   have hE : EPOCHS_IN_WEEK = 7 := rfl
-  by_cases h : (g.buckets g.firstBucketId).tokens ≤ t.tokens
-  · simp only [KWeekly.shift_one_bucket, shiftOnce, hE, sub?, if_pos h, Mx.KMath.safe_sub_eq,
-      safeSub, Option.bind_eq_bind, Option.bind_some, Option.pure_def, Option.map_some]
-  · simp only [KWeekly.shift_one_bucket, shiftOnce, sub?, if_neg h, Option.bind_eq_bind,
-      Option.bind_none, Option.map_none]
+  k_defs [KWeekly.shift_one_bucket, shiftOnce, hE, Mx.KMath.safe_sub_eq, safeSub]
+  k_solve
 
 /-! ### global totals -/
 
@@ -75,13 +73,8 @@ theorem shift_one_bucket_eq (g : St) (t : Totals) :
 theorem deplete_end_epoch_eq (last W lastActive : Nat) :
     KWeekly.deplete_end_epoch last W lastActive =
       if W < lastActive then none else some (last + (W - lastActive) * 7) := by
-  by_cases h : lastActive ≤ W
-  · have h' : ¬ W < lastActive := by omega
-    simp only [KWeekly.deplete_end_epoch, sub?, if_pos h, if_neg h', Option.bind_eq_bind,
-      Option.bind_some, Option.pure_def]
-  · have h' : W < lastActive := by omega
-    simp only [KWeekly.deplete_end_epoch, sub?, if_neg h, if_pos h', Option.bind_eq_bind,
-      Option.bind_none]
+  k_defs [KWeekly.deplete_end_epoch]
+  k_solve
 
 /-- the model's `depletedPrev` is the source's `Energy::deplete` at the source's deplete epoch -/
 theorem depletedPrev_runs_source (prev : Energy) (W lastActive : Nat) (h : lastActive ≤ W)
@@ -105,33 +98,17 @@ theorem total_tokens_update_eq (g : St) (W : Nat) (bp : BucketPair) (depPrev cur
         (g.totalLocked W) =
       (updateTotalTokens g W bp depPrev cur).map fun g' => g'.totalLocked W := by
   obtain ⟨p, c⟩ := bp
-  cases p with
-  | none =>
-    cases c with
-    | none => simp [KWeekly.total_tokens_update, updateTotalTokens]
-    | some c => simp [KWeekly.total_tokens_update, updateTotalTokens]
-  | some p =>
-    cases c with
-    | none =>
-      by_cases h : depPrev.totalLocked ≤ g.totalLocked W
-      · simp [KWeekly.total_tokens_update, updateTotalTokens, sub?, h]
-      · simp [KWeekly.total_tokens_update, updateTotalTokens, sub?, h]
-    | some c =>
-      by_cases h : depPrev.totalLocked ≤ g.totalLocked W + cur.totalLocked
-      · simp [KWeekly.total_tokens_update, updateTotalTokens, sub?, h]
-      · simp [KWeekly.total_tokens_update, updateTotalTokens, sub?, h]
+  cases p <;> cases c <;> simp only [Option.isSome_some, Option.isSome_none] <;>
+    k_defs [KWeekly.total_tokens_update, updateTotalTokens, upd_same] <;> k_solve
 
 /-- the update of `totalEnergyForWeek(current_week)` IS the model's `updateTotalEnergy`:
     subtract the (depleted) previous energy first (checked), then add the current one -/
 theorem total_energy_update_eq (g : St) (W : Nat) (depPrev cur : Energy) :
     KWeekly.total_energy_update depPrev.amount cur.amount (g.totalEnergy W) =
       (updateTotalEnergy g W depPrev cur).map fun g' => g'.totalEnergy W := by
-  by_cases h : depPrev.getEnergyAmount ≤ g.totalEnergy W
-  · simp only [KWeekly.total_energy_update, updateTotalEnergy, Mx.KEnergy.weekly_get_energy_amount_eq,
-      sub?, if_pos h, Option.bind_eq_bind, Option.bind_some, Option.pure_def, Option.map_some,
-      upd_same]
-  · simp only [KWeekly.total_energy_update, updateTotalEnergy, Mx.KEnergy.weekly_get_energy_amount_eq,
-      sub?, if_neg h, Option.bind_eq_bind, Option.bind_some, Option.bind_none, Option.map_none]
+  k_defs [KWeekly.total_energy_update, updateTotalEnergy, Mx.KEnergy.weekly_get_energy_amount_eq,
+    upd_same]
+  k_solve
 
 /-- the week whose entries `perform_weekly_update` clears: `current − 4 − 1` (the model's
     `W − USER_MAX_CLAIM_WEEKS − 1`), computed only for `current > 5` -/
@@ -139,10 +116,8 @@ theorem inaccessible_week_eq (W : Nat) (h : USER_MAX_CLAIM_WEEKS + 1 < W) :
     KWeekly.inaccessible_week W = some (W - USER_MAX_CLAIM_WEEKS - 1) := by
   have hU : USER_MAX_CLAIM_WEEKS = 4 := rfl
   rw [hU] at h ⊢
-  have h1 : 4 ≤ W := by omega
-  have h2 : 1 ≤ W - 4 := by omega
-  simp only [KWeekly.inaccessible_week, sub?, if_pos h1, if_pos h2, Option.bind_eq_bind,
-    Option.bind_some, Option.pure_def]
+  k_defs [KWeekly.inaccessible_week]
+  k_solve
 
 /-! ### rewards and claim progress -/
 
@@ -151,8 +126,8 @@ theorem inaccessible_week_eq (W : Nat) (h : USER_MAX_CLAIM_WEEKS + 1 < W) :
 theorem user_reward_share_eq (amount energy total : Nat) :
     KWeekly.user_reward_share energy total amount =
       if total = 0 then none else some (share amount energy total) := by
-  simp only [KWeekly.user_reward_share, div?, share, Option.bind_eq_bind, Option.pure_def]
-  split <;> rfl
+  k_defs [KWeekly.user_reward_share, share]
+  k_solve
 
 /-- source `ClaimProgress::advance_week` = model `advanceWeek`: the entry is depleted by 7 epochs
     from its own `last_update_epoch`, the week grows by one.
@@ -161,8 +136,8 @@ theorem advance_week_eq (p : ClaimProgress) :
     KWeekly.advance_week p.energy.amount p.energy.lastUpdateEpoch p.energy.totalLocked p.week =
       some (p.advanceWeek.energy.amount, p.advanceWeek.energy.lastUpdateEpoch, p.advanceWeek.week) := by
   have hE : EPOCHS_IN_WEEK = 7 := rfl
-  simp only [KWeekly.advance_week, Mx.KEnergy.weekly_deplete_eq, ClaimProgress.advanceWeek, hE,
-    Option.bind_eq_bind, Option.bind_some, Option.pure_def]
+  k_defs [KWeekly.advance_week, Mx.KEnergy.weekly_deplete_eq, ClaimProgress.advanceWeek, hE]
+  try k_solve
 
 /-- source `advance_multiple_weeks(n)` = model `advanceMultipleWeeks n` -/
 theorem advance_multiple_weeks_eq (p : ClaimProgress) (n : Nat) :
@@ -171,8 +146,9 @@ theorem advance_multiple_weeks_eq (p : ClaimProgress) (n : Nat) :
       some ((p.advanceMultipleWeeks n).energy.amount, (p.advanceMultipleWeeks n).energy.lastUpdateEpoch,
             (p.advanceMultipleWeeks n).week) := by
   have hE : EPOCHS_IN_WEEK = 7 := rfl
-  simp only [KWeekly.advance_multiple_weeks, Mx.KEnergy.weekly_deplete_eq,
-    ClaimProgress.advanceMultipleWeeks, hE, Option.bind_eq_bind, Option.bind_some, Option.pure_def]
+  k_defs [KWeekly.advance_multiple_weeks, Mx.KEnergy.weekly_deplete_eq,
+    ClaimProgress.advanceMultipleWeeks, hE]
+  try k_solve
 
 /-- advancing never changes the locked tokens of the recorded energy -/
 theorem advance_frame (p : ClaimProgress) (n : Nat) :
@@ -194,18 +170,14 @@ theorem weeks_to_claim_eq (p0 : ClaimProgress) (W : Nat) (h : p0.week ≤ W) :
           then p0.advanceMultipleWeeks (W - p0.week - USER_MAX_CLAIM_WEEKS) else p0).week) := by
   have hU : USER_MAX_CLAIM_WEEKS = 4 := rfl
   rw [hU]
-  by_cases hx : 4 < W - p0.week
-  · have h4 : 4 ≤ W - p0.week := by omega
-    simp only [KWeekly.weeks_to_claim, sub?, if_pos h, gt_iff_lt, if_pos hx, if_pos h4,
-      advance_multiple_weeks_eq, Option.bind_eq_bind, Option.bind_some, Option.pure_def]
-  · simp only [KWeekly.weeks_to_claim, sub?, if_pos h, gt_iff_lt, if_neg hx, Option.bind_eq_bind,
-      Option.bind_some, Option.pure_def]
+  k_defs [KWeekly.weeks_to_claim, advance_multiple_weeks_eq]
+  k_solve
 
 /-- `claim_multi` aborts when the stored progress is ahead of the current week -/
 theorem weeks_to_claim_aborts (a : Int) (l t w W : Nat) (h : W < w) :
     KWeekly.weeks_to_claim a l t w W = none := by
-  have h' : ¬ w ≤ W := by omega
-  simp only [KWeekly.weeks_to_claim, sub?, if_neg h', Option.bind_eq_bind, Option.bind_none]
+  k_defs [KWeekly.weeks_to_claim]
+  k_solve
 
 example : KWeekly.get_bucket_id_for_energy 700 10 3 = some (1, 13) := by decide
 example : KWeekly.get_bucket_id_for_energy (-5) 10 3 = some (0, 0) := by decide
